@@ -132,6 +132,7 @@ struct fiber {
 	long call_seq; int in_api;
 	int prio; int wait_on; /* F_WAIT_FIBER: runnable once fiber wait_on is asleep */
 	const volatile uint32_t *pend_wait; /* about to load its `waiting` flag in the wait loop of nsync_mu_lock_slow_ */
+	int retry_loads; /* atomic loads performed inside mu_try_acquire_after_timeout_or_cancel since vf_retry_loads_reset */
 	int log_alias; /* > 0: log this fiber's events under this thread id (a call made from inside a client callback is shown to the acceptors as another thread's call) */
 	/* futex */
 	int *fut_addr; int fut_woken; int fut_result; int fut_fault;
@@ -148,6 +149,8 @@ static const size_t STACK_SIZE = 256 * 1024;
 #define INF_NS INT64_MAX
 
 int vf_self (void) { return (cur); }
+int vf_retry_loads (int k) { return (k >= 0 && k < nfibers ? fibers[k].retry_loads : 0); }
+void vf_retry_loads_reset (void) { if (cur >= 0) { fibers[cur].retry_loads = 0; } }
 static int log_tid (void) { return (cur < 0 ? 99 : fibers[cur].log_alias > 0 ? fibers[cur].log_alias : cur); }
 void vf_log_alias (int tid) { if (cur >= 0) { fibers[cur].log_alias = tid; } }
 int64_t vf_now (void) { return (now_ns); }
@@ -161,6 +164,10 @@ const int *vf_schedule (int *len) { *len = sched_len; return (sched_rec); }
 static void fiber_main (void) {
 	struct fiber *f = &fibers[cur];
 	(*f->fn) (f->arg);
+	if (cfg.thread_exit && f->ptw != NULL && f->ptw_dest != NULL) { /* the thread ends: its key destructor hands the waiter to the pool */
+		void *w = f->ptw; f->ptw = NULL;
+		(*f->ptw_dest) (w);
+	}
 	f->st = F_DONE; write_epoch++;
 	swapcontext (&f->ctx, &sched_ctx);
 }
@@ -190,7 +197,7 @@ static int runnable (struct fiber *f) {
 	case F_READY: return (1);
 	case F_BLOCKED_SEM: return (*sem_count (f->sem) > 0 || f->deadline <= now_ns);
 	case F_PARKED: return (f->park_epoch != write_epoch);
-	case F_WAIT_FIBER: return (vf_fiber_blocked (f->wait_on));
+	case F_WAIT_FIBER: return (f->wait_on >= 1000 ? (f->wait_on - 1000 >= nfibers || fibers[f->wait_on - 1000].st == F_DONE) : vf_fiber_blocked (f->wait_on));
 	case F_BLOCKED_FUTEX: return (f->fut_woken || f->fut_fault != 0 || (f->deadline != INF_NS && f->deadline <= now_ns));
 	default: return (0);
 	}
@@ -200,9 +207,12 @@ static int runnable (struct fiber *f) {
 int vf_fiber_blocked (int k) { return (k >= 0 && k < nfibers && (fibers[k].st == F_DONE || ((fibers[k].st == F_BLOCKED_SEM || fibers[k].st == F_BLOCKED_FUTEX) && !runnable (&fibers[k])))); }
 /* scenario op `after_blocked k`: the calling fiber is not schedulable until fiber k sleeps (or is done) — a real block,
    so that an unfair scheduling strategy cannot burn the step budget on it */
-void vf_wait_fiber_blocked (int k) {
+void vf_wait_fiber_blocked (int k) {   /* k >= 1000: wait until fiber k - 1000 is DONE (scenario op `after_done`) */
+	if (k >= 1000) { if (cur < 0 || k - 1000 >= nfibers || k - 1000 == cur || fibers[k - 1000].st == F_DONE) { return; } }
+	else {
 	if (cur < 0 || k < 0 || k >= nfibers || k == cur) { return; }
 	if (vf_fiber_blocked (k)) { return; }
+	}
 	fibers[cur].st = F_WAIT_FIBER; fibers[cur].wait_on = k;
 	yield_to_sched ();
 	fibers[cur].st = F_READY;
@@ -408,6 +418,7 @@ static void note_op (int wrote) {
 /* ------------------------------------------------------------------ atomic operations */
 uint32_t vf_load (const nsync_atomic_uint32_ *p, int ord, const char *file, int k, const char *func, const char *expr) {
 	char lb[64]; uint32_t v; long e0;
+	if (cur >= 0 && has (func, "mu_try_acquire_after_timeout_or_cancel")) { fibers[cur].retry_loads++; } /* loads of the word in the re-acquisition spin of a timed-out nsync_mu_wait */
 	if (cur >= 0 && has (expr, "waiting") && has (func, "nsync_mu_lock_slow_")) { fibers[cur].pend_wait = (const volatile uint32_t *) p; }
 	sched_point ();
 	if (cur >= 0) { fibers[cur].pend_wait = NULL; }
@@ -470,11 +481,17 @@ void nsync_panic_ (const char *s) {
 void *nsync_per_thread_waiter_ (void (*dest) (void *)) { (void) dest; return (cur >= 0 ? fibers[cur].ptw : NULL); }
 void nsync_set_per_thread_waiter_ (void *v, void (*dest) (void *)) { if (cur >= 0) { fibers[cur].ptw = v; fibers[cur].ptw_dest = dest; } }
 
-static int nsync_mallocs;
+static int nsync_mallocs; static int ctor_mallocs;
+static int alloc_fails (const char *func) {
+	int unchecked = has (func, "nsync_waiter_new_") || has (func, "nsync_wait_n");
+	nsync_mallocs++;
+	if (!unchecked) { ctor_mallocs++; }
+	return ((cfg.fail_malloc_at != 0 && nsync_mallocs == cfg.fail_malloc_at) || (cfg.fail_malloc_from != 0 && nsync_mallocs >= cfg.fail_malloc_from) ||
+		(cfg.fail_ctor_at != 0 && !unchecked && ctor_mallocs == cfg.fail_ctor_at));
+}
 void *vf_malloc (size_t n, const char *func) {
 	void *p;
-	nsync_mallocs++;
-	if ((cfg.fail_malloc_at != 0 && nsync_mallocs == cfg.fail_malloc_at) || (cfg.fail_malloc_from != 0 && nsync_mallocs >= cfg.fail_malloc_from)) {
+	if (alloc_fails (func)) {
 		vf_log ("malloc NULL %s", func);
 		return (NULL);
 	}
@@ -490,8 +507,7 @@ void *vf_malloc (size_t n, const char *func) {
    recognised by its size when the caller is a helper and not the constructor itself */
 static void *vf_alloc_other (size_t n, size_t al, const char *func) {
 	char *p;
-	nsync_mallocs++;
-	if ((cfg.fail_malloc_at != 0 && nsync_mallocs == cfg.fail_malloc_at) || (cfg.fail_malloc_from != 0 && nsync_mallocs >= cfg.fail_malloc_from)) {
+	if (alloc_fails (func)) {
 		vf_log ("malloc NULL %s", func);
 		return (NULL);
 	}
